@@ -393,7 +393,17 @@ class Model:
         EQ = "<Token as cmp::PartialEq>::eq"
         e = M(("seq", ("try", ("call", "P.get_next_token", ("param", "self"))), ("try", ("call", "P.check_paren", ("param", "self"), ("param", "?st"))), ("let", "?args", ("call", "Vec::new")),
                ("loop", "?body"), ("Ok", ("var", "?args"))), t)
+        NEXT_ = ("try", ("call", "P.get_next_token", ("param", "self")))
         if e is None:
+            # the empty list decided before the loop (the guard `args.is_empty() && closer` can only hold in the first iteration):
+            #   if closer { next; Ok(args) } else { loop { e; push; if ',' { next } else if closer { next; break } else { Err } }; Ok(args) }
+            e2 = M(("seq", NEXT_, ("try", ("call", "P.check_paren", ("param", "self"), ("param", "?st"))), ("let", "?args", ("call", "Vec::new")),
+                    ("if", ("call", EQ, ("param", "?en"), CUR), ("seq", NEXT_, ("|", ("Ok", ("var", "?args")), ("return", ("Ok", ("var", "?args"))))), ("seq", ("loop", "?body"), ("Ok", ("var", "?args"))))), t)
+            if e2 is not None:
+                args = ("var", e2["?args"])
+                ok = M(("seq", ("let", "?a", ("try", ("call", "P.generate_ast", ("param", "self"), ("param", "?pr")))), ("call", "Vec::push", args, ("var", "?a")),
+                        ("if", ("call", EQ, ("ctor", "Token::Comma"), CUR), NEXT_, ("if", ("call", EQ, ("param", e2["?en"]), CUR), ("seq", NEXT_, ("break",)), ("return", ("Err",))))), e2["?body"]) is not None
+                return ok, ("" if ok else T.show(t)[:400])
             return False, T.show(t)[:400]
         args = ("var", e["?args"])
         ok = M(("seq",
